@@ -54,10 +54,13 @@ def run_case(case, ctx, with_ignore=False, judge=None):
     funcs, segs = memhist.build_case(rng, pool, with_ignore, nfuncs=5, ncalls=rng.choice([12, 20, 30]), nproc=nproc)
     d = harness.mkscratch("vjl-c02-")
     try:
-        recache = rng.choice([None, None, None, "twice", "other-memory"])
+        recache = rng.choice([None, None, None, "twice", "other-memory", "pickled"])
+        verbose = rng.choice([0, 0, 0, 2, 11])     # verbosity only adds messages - built inside the same code paths
         if recache:
             ctx.count("histories_through_recached_wrappers")
-        outs = memhist.run_sessions(d, f"mh_{case['i']}", funcs, segs, compress=compress, recache=recache)
+        if verbose:
+            ctx.count("histories_with_a_verbose_memory")
+        outs = memhist.run_sessions(d, f"mh_{case['i']}", funcs, segs, compress=compress, recache=recache, verbose=verbose)
         ctx.evaluated()
         if any(o[0] is None for o in outs):
             bad = next(o for o in outs if o[0] is None)
@@ -65,7 +68,7 @@ def run_case(case, ctx, with_ignore=False, judge=None):
             return
         if nproc > 1:
             ctx.count("multi_process_histories")
-        (judge or judge_c02)(ctx, funcs, segs, outs, dict(compress=compress, nproc=nproc, recache=recache))
+        (judge or judge_c02)(ctx, funcs, segs, outs, dict(compress=compress, nproc=nproc, recache=recache, verbose=verbose))
     finally:
         shutil.rmtree(d, ignore_errors=True)
 
